@@ -142,6 +142,31 @@ def triage(pid, k, props):
         sh("git checkout -- . && git clean -fdq -e target", cwd=wt)
 
 
+def refactor(pid, k, props):
+    """behaviour-preserving refactoring probe: apply /tmp/refactor-out/<pid>/<k>/patch.diff in the worktree, run the tests, run the checks (they should stay silent)"""
+    wt = "/tmp/wt-" + pid
+    d = os.path.join("/tmp/refactor-out", pid, str(k))
+    sh("git checkout -- . && git clean -fdq -e target", cwd=wt)
+    rc, out = sh(["git", "apply", os.path.join(d, "patch.diff")], cwd=wt)
+    if rc != 0:
+        print(pid, k, "patch does not apply", out[-300:])
+        return
+    res = {}
+    try:
+        rct, outt = sh("cargo test --workspace --no-fail-fast --offline 2>&1", cwd=wt)
+        failed = {l.split()[1] for l in outt.splitlines() if l.strip().startswith("test ") and l.strip().endswith("FAILED")}
+        res["tests_ok"] = failed <= BASELINE_FAIL
+        for p in props:
+            rc, out = sh([os.path.join(V, "check"), p, "--tier", "quick"], cwd=V, env={"VERIF_OUT_DIR": "/tmp/refactor-out/.out-" + pid, "ANTHEM_REPO": wt, "VERIF_SELFTEST_CHILD": "1"})
+            keys = [l.split()[1] for l in out.splitlines() if l.strip().startswith(("violated ", "ANALYSIS-GAP "))]
+            if rc != 0:
+                res[p] = keys[:8]
+    finally:
+        sh("git checkout -- . && git clean -fdq -e target", cwd=wt)
+    json.dump(res, open(os.path.join(d, "result.json"), "w"), indent=1)
+    print(pid, k, "tests_ok", res.get("tests_ok"), {k_: v for k_, v in res.items() if k_ != "tests_ok"} or "all checks silent")
+
+
 if __name__ == "__main__":
     a = sys.argv[1:]
     if a[0] == "confirm":
@@ -150,5 +175,7 @@ if __name__ == "__main__":
         sys.exit(check(a[1], a[2], a[3:] or [a[1]]))
     if a[0] == "triage":
         triage(a[1], a[2], a[3:] or [a[1]])
+    if a[0] == "refactor":
+        refactor(a[1], a[2], a[3:] or ["C%02d" % i for i in range(1, 21)])
     if a[0] == "keep":
         keep(a[1], a[2], a[3], a[4])
